@@ -100,6 +100,11 @@ type recModel struct {
 
 func drawRecModel(r *rng.R, kind string) recModel {
 	cfg := corpus.DrawRecurrent(r, kind)
+	if r.Chance(1, 70) {
+		// sizes at which implementations start to block, chunk or parallelise (seq*batch*hidden beyond 2^16)
+		cfg.Input = []int{16, 32, 70}[r.Intn(3)]
+		cfg.Hidden = []int{64, 128, 130}[r.Intn(3)]
+	}
 	cfg.HasH0 = true
 	if kind == "LSTM" {
 		cfg.HasC0 = true
@@ -233,11 +238,18 @@ func drawWorld06(r *rng.R) *Case {
 			rm := rms[mi]
 			seq := r.Range(2, 8)
 			if r.Chance(1, 20) {
-				seq = []int{17, 33, 65, 130}[r.Intn(4)] // long sequences: step counters, preallocated outputs, chunked loops
+				seq = []int{17, 33, 65, 100, 130}[r.Intn(5)] // long sequences: step counters, preallocated outputs, chunked loops
+			}
+			if r.Chance(1, 150) {
+				seq = []int{257, 300, 520}[r.Intn(3)]
 			}
 			batch := r.Range(1, 3)
 			if r.Chance(1, 12) {
 				batch = r.Range(4, 9)
+			}
+			if rm.cfg.Hidden >= 64 {
+				batch = []int{1, 4, 8}[r.Intn(3)]
+				seq = []int{5, 60, 96, 100, 130}[r.Intn(5)]
 			}
 			cuts := drawCuts(r, seq)
 			whole, pieces := buildSession(r, rm, mi, seq, batch, cuts)
